@@ -161,7 +161,7 @@ def run_case(case):
                         d, s = rng.choice(fl)
                         for _ in range(rng.randint(2, 4)):
                             if (d, s) in fs.files():
-                                ops += scen.mutate(fs, rng, 1, hostile=0.2, ops=["overwrite", "append", "truncate", "touch", "same_size_rewrite"], disks=[d])
+                                ops += scen.mutate(fs, rng, 1, hostile=0.2, ops=["overwrite", "append", "truncate", "touch", "same_size_rewrite", "same_second_rewrite"], disks=[d])
                 hist.append([o[0] for o in ops])
             cur_sig = signature(fs, a)
             expect_diff = cur_sig != prev_sig
